@@ -24,6 +24,27 @@ def flag_consts(facts):
     return out
 
 
+def flag_set(facts, tyname):
+    """OR of the flags declared for `tyname` in the crate's bitflags! invocation (None when it cannot be read)."""
+    consts = flag_consts(facts)
+    for it in facts.macro_items:
+        if it.get("name") != "bitflags":
+            continue
+        raw = re.sub(r'#\[doc="(?:[^"\\]|\\.)*"\]', "", it.get("raw", ""))
+        m = re.search(r"pub struct (\w+):\w+\{(.*)\}\s*$", raw)
+        if not m or m.group(1) != tyname:
+            continue
+        names = [x.strip() for x in m.group(2).split(";") if x.strip()]
+        vals = [consts.get(re.sub(r"\s*as\s*\w+$", "", n_)) for n_ in names]
+        if any(v is None for v in vals) or not all(re.fullmatch(r"\w+(\s*as\s*\w+)?", n_) for n_ in names):
+            return None
+        out = 0
+        for v in vals:
+            out |= v
+        return out
+    return None
+
+
 def run(c, facts, tier):
     spec = json.load(open(SPEC))
     posix = json.load(open(POSIX))
